@@ -7,7 +7,10 @@ package tree
 // functions) and to go-mysql-server's in-memory types.JSONDocument of the same value.
 
 import (
+	"bytes"
+	"context"
 	"encoding/json"
+	"errors"
 	"flag"
 	"fmt"
 	"os"
@@ -33,6 +36,7 @@ const (
 	c17FWrapAppend = "C17-autowrap-append"      // [N>=1] on a non-array that is the root or an array element: Set/Insert are silent no-ops
 	c17FEmptyArray = "C17-empty-array-index"    // Set/Insert at an index of an empty array: panic (root) or silent no-op (nested)
 	c17FMissingIdx = "C17-missing-parent-index" // Set/Insert through a missing location followed by an index leg: internal error
+	c17FRemoveEdge = "C17-remove-first-at-chunk-end" // Remove of the first element/member whose value ends at a chunk boundary leaves the comma: invalid JSON
 )
 
 // c17Excluded reports whether a generator shape is switched off because it reproduces a
@@ -79,6 +83,7 @@ type c17Shape struct {
 	lastN       bool // a last-N leg
 	quoteKey    bool // a member name containing "
 	plainHit    bool // every leg is an existing member / element
+	firstOfMany bool // plainHit and the final leg is the first of >= 2 elements/members of its container
 	target      interface{}
 }
 
@@ -155,6 +160,7 @@ func c17ShapeOf(doc interface{}, legs []verifJLeg) c17Shape {
 			case idx < n:
 				sh.traits = append(sh.traits, pre+"_in")
 				at = a[idx]
+				sh.firstOfMany = final && idx == 0 && n >= 2
 			case idx == n:
 				sh.traits = append(sh.traits, pre+"_eqlen")
 				missing = true
@@ -177,6 +183,7 @@ func c17ShapeOf(doc interface{}, legs []verifJLeg) c17Shape {
 			if c, ok := v[l.key]; ok {
 				sh.traits = append(sh.traits, "key_hit")
 				at = c
+				sh.firstOfMany = final && len(v) >= 2 && verifJSortedKeys(v)[0] == l.key
 			} else {
 				sh.traits = append(sh.traits, "key_miss")
 				missing = true
@@ -197,8 +204,35 @@ func c17ShapeOf(doc interface{}, legs []verifJLeg) c17Shape {
 	}
 	if sh.plainHit {
 		sh.target = at
+	} else {
+		sh.firstOfMany = false
 	}
 	return sh
+}
+
+// c17EndsAtChunkBoundary reports whether the value at |path| ends exactly where a leaf chunk of
+// the stored document ends.
+func c17EndsAtChunkBoundary(ctx *sql.Context, d IndexedJsonDocument, path string) bool {
+	if d.m.Root.Level() == 0 {
+		return false
+	}
+	loc, err := jsonPathElementsFromMySQLJsonPath([]byte(path))
+	if err != nil {
+		return false
+	}
+	loc.setScannerState(endOfValue)
+	found := false
+	_ = d.m.WalkNodes(ctx, func(ctx context.Context, n *Node) error {
+		if n.Level() == 1 {
+			for i := 0; i < n.Count(); i++ {
+				if bytes.Equal(n.GetKey(i), loc.key) {
+					found = true
+				}
+			}
+		}
+		return nil
+	})
+	return found
 }
 
 // c17ShapeExcluded names the open finding (if any) that (kind, shape) would reproduce.
@@ -376,7 +410,8 @@ func c17Apply(ctx *sql.Context, ns NodeStore, sIdx IndexedJsonDocument, cur inte
 			// the jsonpath library behind the in-memory Lookup does not understand \" in a member
 			// name; the expected answer is known only when every leg exists
 			classes["lookup_quote_key"] = true
-			if !sh.plainHit {
+			if !sh.plainHit || strings.Contains(path, "[last") {
+				// ([last] makes the stored implementation fall back to the in-memory one)
 				return cur, sIdx, false, nil
 			}
 			if sErr != nil || sRes == nil {
@@ -459,7 +494,16 @@ func c17Apply(ctx *sql.Context, ns NodeStore, sIdx IndexedJsonDocument, cur inte
 	sv, err1 := verifJInterface(ctx, sRes)
 	mv, err2 := verifJInterface(ctx, mRes)
 	if err1 != nil || err2 != nil {
-		return cur, sIdx, false, mm("decode", "cannot decode results: stored %v / in-memory %v", err1, err2)
+		around := ""
+		if raw, err := types.MarshallJson(ctx, sRes); err == nil {
+			var se *json.SyntaxError
+			var tmp interface{}
+			if errors.As(json.Unmarshal(raw, &tmp), &se) {
+				lo, hi := max(0, int(se.Offset)-40), min(len(raw), int(se.Offset)+20)
+				around = fmt.Sprintf("; stored text around offset %d of %d: …%s…", se.Offset, len(raw), raw[lo:hi])
+			}
+		}
+		return cur, sIdx, false, mm("decode", "cannot decode results: stored %v / in-memory %v%s", err1, err2, around)
 	}
 	if !verifJEqual(sv, mv) {
 		return cur, sIdx, false, mm("result", "changed stored=%v in-memory=%v\n stored    %s\n in-memory %s", sCh, mCh, verifJShort(verifJMarshal(sv)), verifJShort(verifJMarshal(mv)))
@@ -542,7 +586,12 @@ func c17Case(rt *rapid.T, rec *vh.Recorder) (*c17Mismatch, *c17CaseFile) {
 		kind := rapid.SampledFrom(c17Kinds).Draw(rt, "op")
 		legs, existing := c17GenLegs(rt, cur, keys)
 		sh := c17ShapeOf(cur, legs)
-		if f := c17ShapeExcluded(kind, sh); f != "" {
+		f := c17ShapeExcluded(kind, sh)
+		if f == "" && kind == "Remove" && sh.firstOfMany && c17Excluded(c17FRemoveEdge) && c17EndsAtChunkBoundary(ctx, sIdx, verifJRenderPath(legs)) {
+			f = c17FRemoveEdge
+			existing = nil // Remove($) is an error in both implementations
+		}
+		if f != "" {
 			// reproduces an open finding: use the plain existing location instead
 			classes["excluded:"+f] = true
 			legs = existing
